@@ -38,7 +38,7 @@ func init() {
 			"S3 (start-up loaders, bound 1, thorough 2): pairs of the real readNativeCode bodies from the table state that exists when the start-up goroutines are spawned; " +
 			"S4 (main script and handlers, bound 1, thorough 2): one evaluation assigning variables in a shared scope while 1-2 others call a handler function defined in that scope from enclosed scopes (what the HTTP module does after serve(background: true)); " +
 			"S5 (the real request handlers of the http module, bound 1, thorough 2): handler objects are built by the module's own S.get/S.post in a script scope and their Go handler functions are called directly (echo context over an in-memory recorder, no server, no network) by 2 threads x 1-2 requests out of 11 (two of them carrying header and query names the interpreter has not seen, which the handler sends back), all pairs, plus every single-thread history of 2 requests; every response (status, content type, header, body) must equal the response the same request gets alone from freshly built handlers; local variables that a Go closure assigns although they are declared outside it are recorded like fields (state kept by a closure that several requests call); " +
-			"the tables are restored to a snapshot before every execution; oracle: no happens-before-unordered conflicting accesses on symHashTable/strTable nor on any package-level variable that a function other than init assigns, nor on any field of an object-package struct that some statement assigns after construction (every read/write of such a field is recorded per object; at present Env.Store, PanErr.StackTrace, PanFunc.Env, PanObj.Keys/Pairs/PrivateKeys/zero; a new lazily written field is picked up automatically), SymHash2Str returns what the thread interned, Items() never panics, no deadlock, same final tables and results in every schedule; " +
+			"the tables are restored to a snapshot before every execution; oracle: no happens-before-unordered conflicting accesses on symHashTable/strTable nor on any package-level variable that a function other than init assigns, nor on any field of a struct of a repository package (object, evaluator, ast, ...) that some statement assigns after construction (every read/write of such a field is recorded per object; at present Env.Store, PanErr.StackTrace, PanFunc.Env, PanObj.Keys/Pairs/PrivateKeys/zero; a new lazily written field is picked up automatically), SymHash2Str returns what the thread interned, Items() never panics, no deadlock, same final tables and results in every schedule; " +
 			"states = schedules executed, transitions = scheduling steps; non-trivial = schedule containing a cross-thread conflicting access pair; distinct = distinct (scenario, choice vector); round 7: S2 also has two programs that catch errors raised by built-in code (exhausted built-in iterators asked again, failing built-ins, `_`).; round 8: The sync shim reports a lock value copied after its first use; S4 also runs pairs of handlers that only read shared values while expanding them into calls and literals or instantiating a shared iterator literal.",
 		Assumptions: []string{
 			"memory model: a data-race-free Go program is sequentially consistent; races are what is detected",
